@@ -1,7 +1,9 @@
 package rules
 
 import (
+	"fmt"
 	"go/types"
+	"sort"
 
 	"golang.org/x/tools/go/ssa"
 
@@ -82,55 +84,7 @@ func runC11(c *Ctx) {
 		c.guarded(st, g, 1, "go subscriptionHandler", find(st, func(in ssa.Instruction) bool { _, ok := in.(*ssa.Go); return ok }), 1, gDominate)
 	})
 
-	c.rule("C11.O1", "handleNewSubscription: the backlog since the requested height is delivered to the new subscriber before it is registered for live events, both in the handler goroutine; registration happens only if the backlog could be computed", func() {
-		fn := c.fn(fnHandleNew)
-		reg := mapUpdate(loadsField(sm("subscribers")))
-		one := callTo(smM("notifySubscriber"))
-		c.neverAfter(fn, reg, "m.subscribers[id] = sub", one, "backlog delivery (notifySubscriber)", 1, nil)
-		since := c.method("blockntfns", "NotificationSource", "NotificationsSinceHeight")
-		sc := find(fn, callTo(since))
-		eff := append(find(fn, reg), find(fn, one)...)
-		c.guarded(fn, errNil("ntfnSource.NotificationsSinceHeight(sub.bestHeight)", sc, 2), 1, "backlog delivery / registration", eff, 2, gDominate)
-		okArg := len(sc) == 1
-		for _, s := range sc {
-			if !isLoadOfPath(argsOf(s)[0], ns("bestHeight")) {
-				okArg = false
-			}
-		}
-		c.verdict(okArg, c.nm(fn)+" | backlog requested from sub.bestHeight", c.P.Pos(fn.Pos()), "argument is the subscriber's start height", "the backlog is not requested from the subscriber's own start height", c.ats(sc)...)
-		// every backlog element is delivered to THIS subscriber, in slice order
-		var starts []start
-		ir.Instrs(fn, func(in ssa.Instruction) {
-			ia, ok := in.(*ssa.IndexAddr)
-			if !ok {
-				return
-			}
-			e, ok := ir.Strip(ia.X).(*ssa.Extract)
-			if ok && e.Index == 0 && valIsCallTo(since)(e.Tuple) {
-				starts = append(starts, afterInstr(c, in))
-			}
-		})
-		c.mustFollowIter(fn, "each backlog notification", starts, one, "m.notifySubscriber(sub, block)", nil, 1)
-		okSub := true
-		for _, o := range find(fn, one) {
-			if ir.CallOf(o).Args[1] != ssa.Value(fn.Params[1]) {
-				okSub = false
-			}
-		}
-		c.verdict(okSub, c.nm(fn)+" | backlog goes to the subscriber being registered", c.P.Pos(fn.Pos()), "notifySubscriber(sub, ..)", "the backlog is delivered to a different subscriber")
-		// the registration reply: exactly one per request
-		h := c.fn(fnSubHandler)
-		rep := sendOn(loadsField(ns("errChan")))
-		reps := find(h, rep)
-		okRep := len(reps) == 1
-		for _, r := range reps {
-			s, isSend := r.(*ssa.Send)
-			if !isSend || !valIsCallTo(smM("handleNewSubscription"))(s.X) {
-				okRep = false
-			}
-		}
-		c.verdict(okRep, c.nm(h)+" | one reply per registration, carrying handleNewSubscription's result", c.P.Pos(h.Pos()), "msg.errChan <- m.handleNewSubscription(msg)", "the registration reply is missing, duplicated or not the handler's result", c.ats(reps)...)
-	})
+	c.rule("C11.O1", backlogDoc, func() { c.backlogThenRegister() })
 
 	c.rule("C11.O2", "newSubscription.cancel: close(quit), then wait for the forwarder (wg.Wait), then close(ntfnChan), all inside sync.Once: no send after close, no double close", func() {
 		top := c.fn(fnSubCancel)
@@ -152,6 +106,82 @@ func runC11(c *Ctx) {
 		// nothing but the Once call in cancel itself
 		others := find(top, anyOf(cq, cn))
 		c.verdict(len(others) == 0, c.nm(top)+" | no close outside the Once body", c.P.Pos(top.Pos()), "closes only inside Do", "a channel is closed outside the sync.Once body (double close possible)", c.ats(others)...)
+	})
+
+	c.rule("C11.V1", "registry keys never collide: the id under which a subscriber is registered (and later cancelled) is assigned only from a monotonically increasing counter (atomic.AddUint64(&m.<counter>, 1)) that nothing else writes, so a new registration cannot replace a live subscriber and a cancellation cannot hit another one", func() {
+		idF := c.field("blockntfns", "newSubscription", "id")
+		add := c.funcObj("sync/atomic", "AddUint64")
+		var bad, sites []string
+		var counter *types.Var
+		n := 0
+		for _, f := range c.P.Funcs {
+			for _, st := range find(f, storeToField(idF)) {
+				n++
+				sites = append(sites, c.nm(f)+"@"+c.at(st))
+				call, ok := st.(*ssa.Store).Val.(*ssa.Call)
+				if !ok || !callTo(add)(call) {
+					bad = append(bad, "id assigned at "+c.at(st)+" from something other than an atomic counter increment")
+					continue
+				}
+				fa, ok := call.Call.Args[0].(*ssa.FieldAddr)
+				if k, isC := ir.ConstInt(call.Call.Args[1]); !ok || !isC || k != 1 {
+					bad = append(bad, "id assigned at "+c.at(st)+" not from counter+1")
+					continue
+				}
+				counter = ir.FieldOfAddr(fa)
+			}
+		}
+		if counter != nil {
+			// the counter is touched by nothing but that increment
+			for _, f := range c.P.Funcs {
+				ir.Instrs(f, func(in ssa.Instruction) {
+					fa, ok := in.(*ssa.FieldAddr)
+					if !ok || ir.FieldOfAddr(fa) != counter {
+						return
+					}
+					for _, r := range ir.Refs(fa) {
+						if call, ok := r.(*ssa.Call); ok && callTo(add)(call) {
+							continue
+						}
+						bad = append(bad, "counter "+counter.Name()+" accessed at "+c.at(r)+" other than by the increment")
+					}
+				})
+			}
+		}
+		sort.Strings(bad)
+		c.verdict(len(bad) == 0 && n == 1 && counter != nil, "blockntfns | subscriber ids come from a monotonic counter", "-", "id = atomic.AddUint64(&m."+nameOf(counter)+", 1), single assignment site", join(bad)+fmt.Sprintf(" (%d assignment site(s))", n), sites...)
+		// the registry is keyed by that id on insert and delete
+		subs := c.field("blockntfns", "SubscriptionManager", "subscribers")
+		okKey := 0
+		cidF := c.field("blockntfns", "cancelSubscription", "id")
+		for _, f := range c.fns(fnHandleNew, fnHandleCan) {
+			for _, x := range find(f, anyOf(mapUpdate(loadsField(subs)), mapDelete(loadsField(subs)))) {
+				var key ssa.Value
+				switch y := x.(type) {
+				case *ssa.MapUpdate:
+					key = y.Key
+				default:
+					key = ir.CallOf(x).Args[1]
+				}
+				if ir.DerivesFrom(key, func(v ssa.Value) bool {
+					fa, ok := v.(*ssa.FieldAddr)
+					return ok && (ir.FieldOfAddr(fa) == idF || ir.FieldOfAddr(fa) == cidF)
+				}) {
+					okKey++
+				}
+			}
+		}
+		// the cancel message carries the id of the subscription it was created for
+		okCancel := false
+		for _, f := range c.P.Funcs {
+			for _, st := range find(f, storeToField(cidF)) {
+				okCancel = ir.DerivesFrom(st.(*ssa.Store).Val, func(v ssa.Value) bool {
+					fa, ok := v.(*ssa.FieldAddr)
+					return ok && ir.FieldOfAddr(fa) == idF
+				})
+			}
+		}
+		c.verdict(okKey >= 2 && okCancel, "blockntfns | registry insert and delete are keyed by the subscriber's id", "-", "m.subscribers[sub.id] = sub; delete(m.subscribers, msg.id) with msg.id = sub.id", fmt.Sprintf("the registry is no longer keyed by the subscriber id on both insert and delete (%d keyed accesses, cancel carries sub.id: %v)", okKey, okCancel))
 	})
 
 	c.rule("C11.W1", "single sender and quit escapes: only the per-subscription forwarder goroutine sends on ntfnChan (wg-tracked, started in NewSubscription); only notifySubscriber enqueues; both block only in selects that also wait on the subscriber's and the manager's quit; the forwarder forwards exactly what it dequeued", func() {
@@ -279,4 +309,68 @@ func (c *Ctx) fanOutAll() {
 	}
 	c.verdict(okArgs, c.nm(all)+" | each subscriber gets the event that was received", c.P.Pos(all.Pos()), "notifySubscriber(range element, ntfn)", "the fan-out does not pass the ranged subscriber and the received event")
 	c.whoMay("store to newSubscription.bestHeight", storeToField(ns("bestHeight")), []string{fnNewSub}, 1)
+}
+
+func nameOf(v *types.Var) string {
+	if v == nil {
+		return "?"
+	}
+	return v.Name()
+}
+
+const backlogDoc = "handleNewSubscription: the backlog since the requested height is delivered to the new subscriber before it is registered for live events, both in the handler goroutine; registration happens only if the backlog could be computed"
+
+// backlogThenRegister: see backlogDoc.
+func (c *Ctx) backlogThenRegister() {
+	sm := func(f string) *types.Var { return c.field("blockntfns", "SubscriptionManager", f) }
+	smM := func(m string) *types.Func { return c.method("blockntfns", "SubscriptionManager", m) }
+	ns := func(f string) *types.Var { return c.field("blockntfns", "newSubscription", f) }
+	_, _, _ = sm, smM, ns
+	fn := c.fn(fnHandleNew)
+	reg := mapUpdate(loadsField(sm("subscribers")))
+	one := callTo(smM("notifySubscriber"))
+	c.neverAfter(fn, reg, "m.subscribers[id] = sub", one, "backlog delivery (notifySubscriber)", 1, nil)
+	since := c.method("blockntfns", "NotificationSource", "NotificationsSinceHeight")
+	sc := find(fn, callTo(since))
+	eff := append(find(fn, reg), find(fn, one)...)
+	c.guarded(fn, errNil("ntfnSource.NotificationsSinceHeight(sub.bestHeight)", sc, 2), 1, "backlog delivery / registration", eff, 2, gDominate)
+	okArg := len(sc) == 1
+	for _, s := range sc {
+		if !isLoadOfPath(argsOf(s)[0], ns("bestHeight")) {
+			okArg = false
+		}
+	}
+	c.verdict(okArg, c.nm(fn)+" | backlog requested from sub.bestHeight", c.P.Pos(fn.Pos()), "argument is the subscriber's start height", "the backlog is not requested from the subscriber's own start height", c.ats(sc)...)
+	// every backlog element is delivered to THIS subscriber, in slice order
+	var starts []start
+	ir.Instrs(fn, func(in ssa.Instruction) {
+		ia, ok := in.(*ssa.IndexAddr)
+		if !ok {
+			return
+		}
+		e, ok := ir.Strip(ia.X).(*ssa.Extract)
+		if ok && e.Index == 0 && valIsCallTo(since)(e.Tuple) {
+			starts = append(starts, afterInstr(c, in))
+		}
+	})
+	c.mustFollowIter(fn, "each backlog notification", starts, one, "m.notifySubscriber(sub, block)", nil, 1)
+	okSub := true
+	for _, o := range find(fn, one) {
+		if ir.CallOf(o).Args[1] != ssa.Value(fn.Params[1]) {
+			okSub = false
+		}
+	}
+	c.verdict(okSub, c.nm(fn)+" | backlog goes to the subscriber being registered", c.P.Pos(fn.Pos()), "notifySubscriber(sub, ..)", "the backlog is delivered to a different subscriber")
+	// the registration reply: exactly one per request
+	h := c.fn(fnSubHandler)
+	rep := sendOn(loadsField(ns("errChan")))
+	reps := find(h, rep)
+	okRep := len(reps) == 1
+	for _, r := range reps {
+		s, isSend := r.(*ssa.Send)
+		if !isSend || !valIsCallTo(smM("handleNewSubscription"))(s.X) {
+			okRep = false
+		}
+	}
+	c.verdict(okRep, c.nm(h)+" | one reply per registration, carrying handleNewSubscription's result", c.P.Pos(h.Pos()), "msg.errChan <- m.handleNewSubscription(msg)", "the registration reply is missing, duplicated or not the handler's result", c.ats(reps)...)
 }
